@@ -221,3 +221,51 @@ PROPS["C05"]["trusted"] = COMMON_TRUST + IO_TRUST + CLI_TRUST
 PROPS["C05"]["fallback_searches"].append("cli_run_patch")
 PROPS["C01"]["twins"].append(dict(name="cli_chain", repo_fn="src/bin/copia/main.rs", quick=1, thorough=1, needs_cli=True,
                                   contract="signature -> delta -> patch chained through their files with the real binary reproduces the source"))
+
+WORLD_TRUST = [
+    "ghost file-system world (units/lib/world_model.rs, ASSUMED): rename is atomic and must be looked at to learn its result; copy / create+write are NON-atomic and allowed only onto reserved staging names (*.copia-tmp, *.tmp); bytes are durable only after sync_all; a staging file may be renamed into place only after it was flushed; sync_all changes no bytes",
+    "std::path algebra (ASSUMED): a path is its byte string, join = concatenation with '/', OsString::push appends, PathBuf keys of a BTreeMap are identified with their byte view",
+    "serde_json by contract: from_slice is a total parser (parse_archive), to_vec_pretty is inverted by it",
+    "discover_local_fingerprints (directory walk + streaming BLAKE3) by contract: reports fp_of(bytes) for every file of the tree, absence otherwise, and changes nothing",
+    "reconcile's contract is PROVED in unit `reconcile` and restated over byte views of the keys (same table text, lib/table_spec.rs); root_pair_hash / archive_path / host_id / short_hex by contract",
+    "R5 shims: base_of (map_or_else + clone), arc_or_fresh (unwrap_or_else + fresh), count_conflicts (diagnostics), string_eq_str, hash_ge/gt/le/lt for [u8;32] comparison (lexicographic), vfmt_conflict for the conflict-copy suffix format! (R3')",
+    "R11: Box<dyn Error> => opaque VErr",
+]
+BISYNC_UNIT = dict(template="units/bisync.rs", slice=["*"])
+BISYNC_TWIN = dict(name="bisync_histories", repo_fn="src/bin/copia/bidir.rs run_bisync", quick=1, thorough=1, needs_cli=True,
+                   contract="18 hand-built histories over {write, delete, bisync, dry-run, archive faults, edited/deleted conflict copies} on the real binary: no version lost (C02), converge + record == tree + idempotent (C06), no removal after an archive fault (C07), dry run changes nothing (C15)")
+
+def _bisync(clauses, ignore=None, not_decided=(), only_re=None):
+    u = dict(BISYNC_UNIT)
+    if ignore:
+        u["ignore_clauses"] = ignore
+    return dict(level="proof", units=[u], twins=[dict(BISYNC_TWIN, only_re=only_re)], fallback_searches=["bisync"], clauses=clauses,
+                trusted=COMMON_TRUST + WORLD_TRUST, assumptions=["roots do not overlap; the archive file lives outside both trees; the archive epoch is below u64::MAX; names ending in .copia-tmp are reserved"],
+                not_decided=list(not_decided))
+
+PROPS["C07"] = _bisync({
+    "Archive::load": "Some(a) ==> the file AT THE GIVEN PATH exists, parses to a, a.format_version == 1 and a.root_pair_hash == the expected pair (nothing else is ever trusted: no .bak, no other pair, no other version)",
+    "run_bisync": "no trusted archive for this pair at the archive path ==> no Unlink effect at all (the plan is computed with every base forced to None, table(a,b,None) is never a delete, apply unlinks only on Delete*)",
+    "apply": "an Unlink effect happens only for DeleteA/DeleteB and only on the path that action names",
+}, ignore={"run_bisync": [r"record_ok", r"conflict_names_free"], "copy_atomic": [r"synced", r"is_staging\(asp\(from\)\)"]},
+   only_re=r"\(C07\)", not_decided=["injectivity of root_pair_hash (two different pairs never share an identifier) is assumed (hash by contract); validated only by the history twin"])
+PROPS["C08"] = _bisync({
+    "copy_atomic": "whatever happens (success, error, a cut between any two steps) no non-staging path other than dst changes; dst changes only by the rename of a staging file that was FLUSHED first (vfs_rename's precondition); non-atomic writes only on *.copia-tmp (vfs_copy's precondition)",
+    "Archive::save": "the record is written to <path>.tmp, flushed, then renamed; on any error the live record holds the old bytes, is absent, or is the complete new record",
+    "run_bisync": "once the archive has been renamed into place no further rename into either tree happens; apply's renames all land inside the trees; an error in any apply returns before the archive is touched",
+}, ignore={"run_bisync": [r"record_ok", r"conflict_names_free"]},
+   only_re=r"\(C08\)|crashed", not_decided=["'running bisync again after the crash converges' is a statement about a second run; not decided (history-level)"])
+PROPS["C02"] = _bisync({
+    "apply": "per action, under 'the scan is still accurate at this path': propagate puts the source bytes on the other side and keeps them on the source side; delete-vs-modify restores the survivor; a divergent edit leaves the greater-BLAKE3 version at the path on both sides and the other version at the conflict-copy name on both sides; nothing outside the action's own paths changes (frame)",
+    "run_bisync (H7 side condition)": "at every apply call the conflict-copy names about to be written are free or already hold the very bytes being preserved",
+    "run_bisync (H6)": "the record names only paths present on a side or conflict-copy names, so a stale base entry can never turn a re-created file into a delete",
+}, ignore={"copy_atomic": [r"synced", r"is_staging\(asp\(from\)\)"]}, only_re=r"\(C02\)|crashed", not_decided=["the multi-run statement (induction over runs) and 'the scan is still accurate when each action runs' (distinctness of plan paths) are argued in DESIGN.md, not mechanised"])
+PROPS["C06"] = _bisync({
+    "apply": "what is recorded for a path is the fingerprint of the version now on both sides (exact value per action), nothing else in the record changes; winner = greater BLAKE3 (lexicographic), loser at <path>.conflict-<host>-<hex12>",
+    "run_bisync": "the new record names only paths that exist on a side at the start of the run or conflict-copy names (no stale entries)",
+    "mtime independence": "no function under contract reads an mtime (the scan's contract is a function of file bytes only)",
+}, ignore={"run_bisync": [r"conflict_names_free"], "copy_atomic": [r"synced", r"is_staging\(asp\(from\)\)"]},
+   only_re=r"\(C06\)", not_decided=["post-run A == B == archive.entries as one whole-tree equality (cross-path frame, L2) is not mechanised; it is exercised by the history twin only", "A/B symmetry lemma not mechanised"])
+PROPS["C15"]["units"].append(dict(template="units/bisync.rs", slice=["run_bisync"], ignore_clauses={"run_bisync": [r"record_ok", r"conflict_names_free"]}))
+PROPS["C15"]["clauses"]["bisync --dry-run"] = "run_bisync: opts.dry_run ==> the world (files and effect log) is unchanged"
+PROPS["C15"]["trusted"] = COMMON_TRUST + PATH_TRUST + WORLD_TRUST
